@@ -315,9 +315,12 @@ class ExecutionState:
         with self._replay_status_lock:
             if self._replay_status == ReplayStatus.REPLAY:
                 self._visited_operations.add(operation_id)
+                # Work on a snapshot: the checkpoint thread merges responses into self.operations concurrently
+                with self._operations_lock:
+                    operations = dict(self.operations)
                 completed_ops = {
                     op_id
-                    for op_id, op in self.operations.items()
+                    for op_id, op in operations.items()
                     if op.operation_type != OperationType.EXECUTION
                     and op.status
                     in {
@@ -327,7 +330,7 @@ class ExecutionState:
                         OperationStatus.STOPPED,
                         OperationStatus.TIMED_OUT,
                     }
-                    and not self._is_under_completed_context(op)
+                    and not self._is_under_completed_context(op, operations)
                 }
                 if completed_ops.issubset(self._visited_operations):
                     logger.debug(
@@ -336,7 +339,10 @@ class ExecutionState:
                     )
                     self._replay_status = ReplayStatus.NEW
 
-    def _is_under_completed_context(self, operation: Operation) -> bool:
+    @staticmethod
+    def _is_under_completed_context(
+        operation: Operation, operations: dict[str, Operation]
+    ) -> bool:
         """Return True if an ancestor context of the operation has a recorded outcome that is returned as is.
 
         Such a context is not run again on replay, so the operations inside it are never visited
@@ -345,7 +351,7 @@ class ExecutionState:
         """
         parent_id = operation.parent_id
         while parent_id:
-            parent = self.operations.get(parent_id)
+            parent = operations.get(parent_id)
             if parent is None:
                 return False
             if parent.status in {
